@@ -12,7 +12,10 @@ SCHEMA = "/root/.vp/EVIDENCE.schema.json"
 
 def write(prop_id: str, ev: dict) -> None:
     d = paths.VERIF / "evidence"
-    d.mkdir(exist_ok=True)
+    if str(paths.repo()) != "/repo":
+        # mutant self-test against a scratch copy: never overwrite the evidence of the real tree
+        d = paths.VERIF / "replays" / "scratch-evidence"
+    d.mkdir(exist_ok=True, parents=True)
     p = d / f"{prop_id}.json"
     tmp = d / f".{prop_id}.json.tmp"
     tmp.write_text(json.dumps(ev, indent=1, default=str) + "\n")
